@@ -60,12 +60,18 @@ class Cx:
         raise ValueError(cls)
 
     def bad_fh(self, cls):
+        if cls in ("empty-fh-object", "empty-abs-fh-object", "empty-array", "empty-index"):
+            # the same empty horizon in the other containers a horizon may arrive in (the horizon class itself allows empty values)
+            from sktime.forecasting.base import ForecastingHorizon
+            import pandas as pd
+            return {"empty-fh-object": lambda: ForecastingHorizon([]), "empty-array": lambda: np.array([], dtype=int), "empty-index": lambda: pd.Index([], dtype="int64"),
+                    "empty-abs-fh-object": lambda: ForecastingHorizon(pd.Index([], dtype="int64"), is_relative=False)}[cls]()
         return {"dup": [1, 2, 2], "empty": [], "frac": [1.5, 2.0], "str": "ab", "tuple": (1, 2), "set": {1, 2}, "nan": [float("nan"), 1.0],
                 "dup-array": np.array([3, 3]), "2d": np.array([[1, 2], [3, 4]])}[cls]
 
 
 Y_CLASSES = ["unsorted", "empty", "dataframe", "ndarray", "list"]
-FH_CLASSES = ["dup", "empty", "frac", "str", "tuple", "set", "dup-array"]
+FH_CLASSES = ["dup", "empty", "frac", "str", "tuple", "set", "dup-array", "empty-fh-object", "empty-abs-fh-object", "empty-array", "empty-index"]
 
 FORECASTERS = {
     "naive": ["naive", {"strategy": "mean", "window_length": 4}],
@@ -306,7 +312,8 @@ def _fhctor_cell(cls):
     def run(cx):
         from sktime.forecasting.base import ForecastingHorizon
         from sktime.utils.validation.forecasting import check_fh
-        if cls == "empty":
+        if cls.startswith("empty"):
+            # the horizon class itself wraps empty index values; emptiness is rejected where a horizon enters the library (check_fh)
             return (lambda: check_fh(cx.bad_fh(cls))), (lambda: check_fh([1, 2])), None
         return (lambda: ForecastingHorizon(cx.bad_fh(cls))), (lambda: ForecastingHorizon([1, 2])), None
     return run
@@ -372,7 +379,7 @@ for _s in ("recursive", "direct", "multioutput", "dirrec"):
 for _s in ("sliding", "expanding"):
     _add("setting:splitter:window-does-not-fit:%s" % _s, _setting_cell("window-does-not-fit", None, _s))
 for _k in ("sliding", "expanding", "single", "cutoff"):
-    for _c in ("dup", "empty", "frac", "str", "tuple"):
+    for _c in ("dup", "empty", "frac", "str", "tuple", "empty-fh-object", "empty-array"):
         _add("setting:%s:fh:%s" % (_k, _c), (lambda k, c: (lambda cx: _setting_cell(k, "fh", cx.bad_fh(c))(cx)))(_k, _c))
 _add("setting:cutoff:cutoffs:list", _setting_cell("cutoff", "cutoffs", [8, 12]))
 _add("setting:cutoff:cutoffs:empty", _setting_cell("cutoff", "cutoffs", np.array([], dtype=int)))
@@ -385,9 +392,9 @@ for _d in ("ensemble:empty", "ensemble:dup-names", "ensemble:dunder-name", "ense
     _add("composite:" + _d, _composite_cell(_d))
 for _d in ["y:" + c for c in Y_CLASSES] + ["strategy", "cv-not-splitter", "scoring-not-callable", "start_with_window-false", "X-index"]:
     _add("evaluate:" + _d, _evaluate_cell(_d))
-for _d in ["y:" + c for c in Y_CLASSES if c != "dataframe"] + ["fh-and-test_size", "fh-in-sample", "X-index"] + ["fh:" + c for c in ("dup", "empty", "frac", "str", "tuple")]:
+for _d in ["y:" + c for c in Y_CLASSES if c != "dataframe"] + ["fh-and-test_size", "fh-in-sample", "X-index"] + ["fh:" + c for c in ("dup", "empty", "frac", "str", "tuple", "empty-fh-object", "empty-abs-fh-object", "empty-array")]:
     _add("train_test_split:" + _d, _tts_cell(_d))
-for _c in ("dup", "empty", "frac", "str", "tuple", "set", "dup-array", "2d", "nan"):
+for _c in ("dup", "empty", "frac", "str", "tuple", "set", "dup-array", "2d", "nan", "empty-fh-object", "empty-abs-fh-object", "empty-array", "empty-index"):
     _add("horizon:" + _c, _fhctor_cell(_c))
 for _d in ["y:" + c for c in Y_CLASSES] + ["grid-scalar", "grid-unknown-param", "scoring-not-callable"]:
     _add("tune:" + _d, _tune_cell(_d))
